@@ -33,6 +33,10 @@ type c20Phase struct {
 	Change       string `json:"change,omitempty"`
 	ChangeRegion int    `json:"change_region,omitempty"`
 	ChangeServer int    `json:"change_server,omitempty"`
+	// for Change == "transient": the region answers its next ChangeCount requests (the probe, if it
+	// is not established yet) with this retryable / not-serving exception; its server stays healthy
+	ChangeClass string `json:"change_class,omitempty"`
+	ChangeCount int    `json:"change_count,omitempty"`
 	// LateBatch: a SendBatch spanning two servers is in flight; the connection to one of
 	// them breaks and other traffic fails over first; only then does the batch get to see
 	// the errors of its calls on the old connection.
@@ -73,6 +77,7 @@ func c20RunInBubble(c c20Case) (out Outcome) {
 	}()
 	anyFault := false
 	layoutChanged := false
+	busyRegions := false
 	concurrentFirst := false
 	reuseAfterFailure := false
 	usedRegions := map[string]bool{}
@@ -163,8 +168,12 @@ func c20RunInBubble(c c20Case) (out Outcome) {
 			cl.SetServer(addr, func(s *sim.ServerState) { s.Fatal = "" })
 		}
 		if ph.Change != "" {
-			c04Apply(cl, c.Layout.Table, addrs, c04Event{Kind: ph.Change, Region: ph.ChangeRegion, Server: ph.ChangeServer}, 50+pi)
-			layoutChanged = true
+			c04Apply(cl, c.Layout.Table, addrs, c04Event{Kind: ph.Change, Region: ph.ChangeRegion, Server: ph.ChangeServer, Class: ph.ChangeClass, Count: ph.ChangeCount}, 50+pi)
+			if ph.Change == "transient" {
+				busyRegions = true
+			} else {
+				layoutChanged = true
+			}
 		}
 		time.Sleep(time.Duration(1+pi) * 10 * time.Millisecond)
 	}
@@ -202,7 +211,10 @@ func c20RunInBubble(c c20Case) (out Outcome) {
 			}
 		}
 	}
-	out.NonTrivial = concurrentFirst || reuseAfterFailure || layoutChanged
+	out.NonTrivial = concurrentFirst || reuseAfterFailure || layoutChanged || busyRegions
+	if busyRegions {
+		out.Labels = append(out.Labels, "region_answers_retryable_exceptions")
+	}
 	if concurrentFirst {
 		out.Labels = append(out.Labels, "concurrent_first_use")
 	}
@@ -243,7 +255,11 @@ func c20Gen(t *rapid.T) c20Case {
 		ph.Fault = rapid.SampledFrom([]string{"", "", "", "reset", "silent", "fatal"}).Draw(t, "fault")
 		ph.FaultServer = rapid.IntRange(0, 3).Draw(t, "faultserver")
 		ph.LateBatch = rapid.IntRange(0, 3).Draw(t, "latebatch") == 0
-		ph.Change = rapid.SampledFrom([]string{"", "", "split", "merge", "move"}).Draw(t, "change")
+		ph.Change = rapid.SampledFrom([]string{"", "", "split", "merge", "move", "transient"}).Draw(t, "change")
+		if ph.Change == "transient" {
+			ph.ChangeClass = rapid.SampledFrom(c04TransientClasses).Draw(t, "class")
+			ph.ChangeCount = rapid.IntRange(1, 3).Draw(t, "count")
+		}
 		ph.ChangeRegion = rapid.IntRange(0, 11).Draw(t, "changeregion")
 		ph.ChangeServer = rapid.IntRange(0, 3).Draw(t, "changeserver")
 		c.Phases = append(c.Phases, ph)
@@ -258,7 +274,8 @@ func TestC20_OneConnection(t *testing.T) {
 			"tables (hbase:meta co-located on the first server); 1..4 phases in each of which 1..32 callers use regions "+
 			"concurrently at the same virtual instant (first uses of several regions of one server, later discoveries, "+
 			"optional CacheRegions warm-up), followed by an optional connection failure (reset, silence past the read "+
-			"timeout, server-stopped exception + drop). Oracle on the servers' dial log: every successful dial to an "+
+			"timeout, server-stopped exception + drop) and an optional change that leaves connections healthy (split, merge, move, "+
+			"or a region answering its next 1..3 requests - the probe included - with a retryable / not-serving exception). Oracle on the servers' dial log: every successful dial to an "+
 			"address finds no earlier connection to that address still open on the client side, and without failures "+
 			"each address is dialled exactly once; all requests succeed. Non-trivial = >= 2 regions of one server first "+
 			"used concurrently, or a failure followed by reuse; distinct by case hash")
